@@ -195,10 +195,31 @@ class EngineRun:
         self.raised = None
         self.stop_msgs = []
         _installed["sink"] = self._node_sink
+        self._install_stop_listener()
         self.engine.run(skip_timer_start=True)
         self._drain_writes(phase="engine-start")
         if method_lines is not None:
             self.set_method(method_lines)
+
+    def _install_stop_listener(self):
+        """what EngineRunner.on_stop does: build the run-stopped message (its run log is what the aggregator stores)"""
+        from openpectus.lang.exec.events import EventListener
+        outer = self
+
+        class L(EventListener):
+            def on_stop(self):
+                rid = self.run_id
+                super().on_stop()
+                try:
+                    msg = outer.mb.create_run_stopped_msg(rid or "")
+                    lines = [{"id": outer._inst(ln.id), "name": str(ln.command_name), "end": ln.end is not None,
+                              "cancelled": bool(ln.cancelled), "forced": bool(ln.forced), "failed": bool(getattr(ln, "failed", False)),
+                              "cancellable": bool(ln.cancellable), "forcible": bool(ln.forcible)} for ln in msg.runlog.lines]
+                    outer._ev("runStopped", lines=lines, exc="none")
+                except Exception as ex:
+                    outer._ev("runStopped", lines=[], exc=type(ex).__name__ + ": " + str(ex)[:100])
+        self._stop_listener = L()
+        self.engine.emitter.add_listener(self._stop_listener)
 
     # ---- recording ----------------------------------------------------------------------------------------
     def _ev(self, e, **kw):
@@ -212,6 +233,15 @@ class EngineRun:
     def _inst(self, instance_id):
         if instance_id not in self.item_ids:
             self.item_ids.append(instance_id)
+            idx = len(self.item_ids)
+            node, cls, name = "", "", ""
+            try:
+                rec = self.engine.tracking.get_record_by_instance_id(instance_id)
+                if rec is not None:
+                    node, cls, name = str(rec.node_id), str(rec.node_class_name), str(rec.name)
+            except Exception:
+                pass
+            self.events.append({"e": "item", "t": self.tick_no, "id": idx, "node": node, "cls": cls, "name": name})
         return self.item_ids.index(instance_id) + 1
 
     def _node_sink(self, node, flag, old, new):
@@ -234,14 +264,38 @@ class EngineRun:
 
     def _request(self, kind, fn, **kw):
         res, exc = "ok", "none"
+        pre = self._digest() if kind in ("cancel", "force") else None
         try:
             r = fn()
             if isinstance(r, str):
                 res = r
         except Exception as ex:
             res, exc = "rejected", type(ex).__name__
+        if pre is not None:
+            kw["unchanged"] = (pre == self._digest())
         self._ev("req", k=kind, res=res, exc=exc, **kw)
+        if kind == "edit":
+            self._log_program()
         return res
+
+    def _digest(self):
+        """observable state that a rejected request must leave alone"""
+        s = self.snapshot()
+        return repr({k: s[k] for k in ("state", "started", "paused", "holding", "runId", "status", "out", "inst", "mstate")}) + \
+            repr([(i["id"], i["state"], i["cancelled"], i["forced"]) for i in s["runlog"]])
+
+    def _log_program(self):
+        try:
+            prog = self.engine.method_manager.program
+            nodes = []
+            for n in prog.get_all_nodes():
+                par = getattr(n, "parent", None)
+                nodes.append({"id": str(n.id), "cls": type(n).__name__, "ins": str(getattr(n, "instruction_name", "") or ""),
+                              "parent": str(par.id) if par is not None else "", "thr": n.threshold is not None,
+                              "args": str(getattr(n, "arguments", "") or "")})
+            self._ev("prog", nodes=nodes)
+        except Exception as ex:
+            self._ev("prog", nodes=[], exc=type(ex).__name__)
 
     def control(self, name):
         return self._request("control", lambda: self.engine.execute_control_command_from_user(name), name=name,
